@@ -31,6 +31,9 @@ type Input struct {
 	// Each half is of the same size N. Usually, N should be the size of a disk block.
 	buff []byte
 
+	// Tells which half of the buff has been loaded most recently.
+	secondLoaded bool
+
 	lexemeBegin int // Pointer lexemeBegin marks the beginning of the current lexeme.
 	forward     int // Pointer forward scans ahead until a pattern match is found.
 
@@ -124,12 +127,20 @@ func (i *Input) next() (byte, error) {
 	// Determine whether or not the forward pointer has reached the end of any halves.
 	// If so, it loads the other half and set the forward pointer to the beginning of it.
 	// If the forward pointer has reached to the end of input, an io.EOF error will be returned.
+	// A half that is already loaded must not be loaded again when the forward pointer
+	// comes back to its boundary after a Retract; that would skip over a part of the input.
 	if i.forward == len(i.buff)/2 { // Is forward at the end of first half?
-		i.err = i.loadSecond()
+		if !i.secondLoaded {
+			i.err = i.loadSecond()
+			i.secondLoaded = true
+		}
 	} else if i.forward == len(i.buff) { // Is forward at the end of second half?
+		if i.secondLoaded {
+			i.err = i.loadFirst()
+			i.secondLoaded = false
+		}
 		// The forward pointer wraps around even if nothing more could be loaded;
 		// otherwise, lexemeBegin, which wraps around too, would never meet it again.
-		i.err = i.loadFirst()
 		i.forward = 0 // beginning of the first half
 	} else if i.buff[i.forward] == eof {
 		i.err = io.EOF
